@@ -104,8 +104,43 @@ ASSUME = ["fresh replays of drawing calls are done when no layer is open (layer 
           "(under a clip path the layer's content cannot be re-created exactly through the public API)"]
 
 
+def after_state_calls(ctx, base):
+    """Histories in which a call that touches internal state for its own purposes (clear under a clip, pop_layer, a
+    drawing call that draws nothing, a clip push and pop) is followed by drawing calls whose pixels depend on the
+    transform and the source's placement: whatever those calls saved, set and restored must be back as it was"""
+    rng = ctx.rng
+    n = 250 if ctx.tier == "quick" else 3000
+    out = []
+    for j in range(n):
+        W, H = rng.randrange(3, 10), rng.randrange(3, 10)
+        px = [gen.premul_pixel(rng) for _ in range(W * H)]
+        t = scene.rand_xf(rng, general=0.5)
+        while t == scene.IDENT or t[0] * t[3] - t[1] * t[2] == 0:
+            t = scene.rand_xf(rng, general=0.5)
+        ops = ["xf " + scene.xf_tokens(t)]
+        clip = rng.random() < 0.6
+        if clip:
+            ops.append("cliprect %d %d %d %d" % scene.rand_rect(rng, W, H))
+        for _ in range(rng.randrange(1, 3)):
+            c = rng.random()
+            if c < 0.35:
+                ops.append("clear " + gen.hexpx(gen.premul_pixel(rng)))
+            elif c < 0.6:
+                ops += ["layer %d %d" % (gen.alpha_bits(rng), 3), scene.draw_op(rng, W, H, dict(sources=["solid", "image"])), "poplayer"]
+            elif c < 0.8:
+                ops.append("fill P 0 0  solid ffffffff 3 %d 1" % FB(1.0))          # an empty path
+            else:
+                ops += ["clippath " + scene.rand_path(rng, W, H, 0.2), "popclip"]
+        if clip and rng.random() < 0.5:
+            ops.append("popclip")
+        for _ in range(rng.randrange(1, 3)):
+            ops.append(scene.draw_op(rng, W, H, dict(sources=["image", "linearc", "image", "radialc"], draw_kinds=["fill", "fillrect", "fillrect", "stroke"])))
+        out.append("scene %d %d %d I %s ; %s" % (base + j, W, H, " ".join(map(gen.hexpx, px)), " ; ".join(ops)))
+    return out
+
+
 def run(ctx):
-    return _scene.run_property(ctx, CFG, 1200, 15000, RULE, concrete, ASSUME, post=post,
+    return _scene.run_property(ctx, CFG, 1200, 15000, RULE, concrete, ASSUME, post=post, extra_lines=after_state_calls,
                                nontrivial=lambda sr, i: len(sr.impl[i]) >= 3)
 
 
